@@ -18,9 +18,11 @@ impl ManagementMessage {
         buffer: &mut [u8],
     ) -> Result<(), crate::datastructures::WireFormatError> {
         self.target_port_identity.serialize(&mut buffer[0..10])?;
-        buffer[11] = self.starting_boundary_hops;
-        buffer[12] = self.boundary_hops;
-        buffer[13] = self.action.to_primitive();
+        buffer[10] = self.starting_boundary_hops;
+        buffer[11] = self.boundary_hops;
+        // reserved (4 bits) | actionField (4 bits), followed by a reserved octet
+        buffer[12] = self.action.to_primitive() & 0x0f;
+        buffer[13] = 0;
 
         Ok(())
     }
@@ -33,9 +35,9 @@ impl ManagementMessage {
         }
         Ok(Self {
             target_port_identity: PortIdentity::deserialize(&buffer[0..10])?,
-            starting_boundary_hops: buffer[11],
-            boundary_hops: buffer[12],
-            action: ManagementAction::from_primitive(buffer[13]),
+            starting_boundary_hops: buffer[10],
+            boundary_hops: buffer[11],
+            action: ManagementAction::from_primitive(buffer[12] & 0x0f),
         })
     }
 }
